@@ -62,6 +62,13 @@ pub fn structured(r: &Ref, seed: u64, dynamic_exp: i32, closed_only: bool) -> Ve
     }
     v.push(Input { name: "zero".into(), x: vec![C::new(0.0, 0.0); n], closed: Closed::Zero });
     v.push(Input { name: "ones".into(), x: vec![C::new(1.0, 0.0); n], closed: Closed::Tones(vec![(0, C::new(1.0, 0.0))]) });
+    // constants that are NOT exactly representable: every addition of the running sum rounds, so summation order and
+    // accumulation strategy of the DC path become visible (with "ones" all partial sums are exact integers)
+    v.push(Input { name: "const:(0.1,-0.7)".into(), x: vec![C::new(0.1, -0.7); n], closed: Closed::Tones(vec![(0, C::new(0.1, -0.7))]) });
+    if n >= 3 {
+        let comps = vec![(0usize, C::new(3.3, 1.7)), (n / 3, C::new(0.013, -0.021))];
+        v.push(Input { name: "dc+weak-tone".into(), x: tones(r, &comps), closed: Closed::Tones(comps) });
+    }
     if n % 2 == 0 {
         v.push(Input {
             name: "alternating".into(),
